@@ -184,6 +184,26 @@ def d2_abort_everywhere(ctx, which, nontrivial, do_model=True):
                        fail_at=j, label="D2-internal-failure")
 
 
+def d2_move_aborts(ctx, which, nontrivial, maxlen, do_model=True):
+    """minimize-balanced with the experimental move: EVERY verdict sequence of up to `maxlen` tests on two small bracketed
+    files, followed by an abort in the next test (an accepted move directly before the abort included)"""
+    import itertools
+    move = ("minimize-balanced", {"use_experimental_move": True})
+    for data in (b"{\na\nb\n}\n", b"x\n(\na\n)\ny\n"):
+        for L in range(1, maxlen + 1):
+            for i, bits in enumerate(itertools.product("ar", repeat=L)):
+                cls = driver.ABORT_CLASSES[(i + L) % len(driver.ABORT_CLASSES)]
+
+                def dec(k, disk, bits=bits, L=L):
+                    if k == 0:
+                        return "a"
+                    if k <= L:
+                        return bits[k - 1]
+                    return "x" if k == L + 1 else "r"
+
+                d2_one(ctx, which, move[0], move[1], "line", data, dec, nontrivial, do_model, abort_cls=cls, label="D2-move-abort")
+
+
 def replay_case(rec):
     """re-run a recorded D1 case on the real code and the model"""
     c = rec["case"]
